@@ -31,36 +31,36 @@ def calls_index_Index : List (String × List String) := [
   ("latest_time", ["datetime.fromtimestamp"]),
   ("__len__", []),
   ("__repr__", ["', '.join", "len", "self._measurements.keys", "self._tags.keys", "type"]),
-  ("build", ["<raise ValueError>", "enumerate", "point.time.timestamp", "self._insert_fields", "self._insert_measurements", "self._insert_tags", "self._reset", "timestamp_buffer.append", "timestamp_buffer.sort"]),
-  ("get_field_keys", ["list", "measurement_items.intersection", "rst.add", "self._fields.items", "self._fields.keys", "set"]),
-  ("get_field_values", ["measurement_items.intersection", "rst.extend", "self._fields.items", "set"]),
+  ("build", ["<raise ValueError>", "_.append", "_.sort", "_.time.timestamp", "enumerate", "self._insert_fields", "self._insert_measurements", "self._insert_tags", "self._reset"]),
+  ("get_field_keys", ["_.add", "_.intersection", "list", "self._fields.items", "self._fields.keys", "set"]),
+  ("get_field_values", ["_.extend", "_.intersection", "self._fields.items", "set"]),
   ("get_measurements", ["self._measurements.keys", "set"]),
-  ("get_tag_keys", ["list", "measurement_items.intersection", "rst.add", "self._tags.items", "self._tags.keys", "set", "tag_values.values"]),
-  ("get_tag_values", ["measurement_items.intersection", "rst[tag_key].add", "self._tags.items", "self._tags[tag_key].items", "set"]),
+  ("get_tag_keys", ["_.add", "_.intersection", "_.values", "list", "self._tags.items", "self._tags.keys", "set"]),
+  ("get_tag_values", ["_.intersection", "_[tag_key].add", "self._tags.items", "self._tags[tag_key].items", "set"]),
   ("get_timestamps", ["set", "sorted", "zip"]),
   ("insert", ["<raise ValueError>", "enumerate", "len", "self._insert_fields", "self._insert_measurements", "self._insert_tags", "self._insert_time"]),
   ("invalidate", ["self._reset"]),
   ("remove", ["len", "self._remove_fields", "self._remove_measurements", "self._remove_tags", "self._remove_timestamps"]),
   ("search", ["self._search_helper"]),
   ("update", ["self._update_fields", "self._update_measurements", "self._update_tags", "self._update_timestamps"]),
-  ("_insert_fields", ["fields.items", "self._fields[field_key].append"]),
+  ("_insert_fields", ["_.items", "self._fields[field_key].append"]),
   ("_insert_measurements", ["self._measurements[measurement].append"]),
-  ("_insert_tags", ["self._tags[tag_key][tag_value].append", "tags.items"]),
-  ("_insert_time", ["len", "self._storage_pos_sorted_by_ts.append", "self._timestamps.append", "time.timestamp"]),
+  ("_insert_tags", ["_.items", "self._tags[tag_key][tag_value].append"]),
+  ("_insert_time", ["_.timestamp", "len", "self._storage_pos_sorted_by_ts.append", "self._timestamps.append"]),
   ("_reset", []),
-  ("_search_fields", ["<except Exception>", "query._path_resolver", "query._test", "rst_items.add", "self._fields.items", "set"]),
+  ("_search_fields", ["<except Exception>", "_._path_resolver", "_._test", "_.add", "self._fields.items", "set"]),
   ("_search_helper", ["<raise TypeError>", "IndexResult", "TypeError", "isinstance", "range", "self._search_fields", "self._search_helper", "self._search_measurement", "self._search_tags", "self._search_timestamps", "set"]),
-  ("_search_measurement", ["<except Exception>", "query._path_resolver", "query._test", "rst_items.union", "self._measurements.items", "set"]),
-  ("_search_tags", ["<except Exception>", "query._path_resolver", "query._test", "rst_items.union", "self._tags.items", "set", "tag_values.items"]),
-  ("_search_timestamps", ["<except Exception>", "datetime.fromtimestamp", "find_eq", "find_ge", "find_gt", "find_le", "find_lt", "items.add", "len", "query._path_resolver", "query._test", "query.is_hashable", "results.add", "rhs.timestamp", "set", "set(self._storage_pos_sorted_by_ts).difference", "zip"]),
+  ("_search_measurement", ["<except Exception>", "_._path_resolver", "_._test", "_.union", "self._measurements.items", "set"]),
+  ("_search_tags", ["<except Exception>", "_._path_resolver", "_._test", "_.items", "_.union", "self._tags.items", "set"]),
+  ("_search_timestamps", ["<except Exception>", "_._path_resolver", "_._test", "_.add", "_.is_hashable", "_.timestamp", "datetime.fromtimestamp", "find_eq", "find_ge", "find_gt", "find_le", "find_lt", "len", "set", "set(self._storage_pos_sorted_by_ts).difference", "zip"]),
   ("_remove_fields", ["self._fields.items"]),
   ("_remove_measurements", ["self._measurements.keys"]),
-  ("_remove_tags", ["self._tags.items", "tag_values.items"]),
-  ("_remove_timestamps", ["new_positions.append", "new_timestamps.append", "zip"]),
+  ("_remove_tags", ["_.items", "self._tags.items"]),
+  ("_remove_timestamps", ["_.append", "zip"]),
   ("_update_fields", ["self._fields.items"]),
   ("_update_timestamps", []),
   ("_update_measurements", ["self._measurements.items"]),
-  ("_update_tags", ["self._tags.items", "tag_values.items"])]
+  ("_update_tags", ["_.items", "self._tags.items"])]
 
 /-- storages (module-level functions): function ↦ what it calls, catches, raises -/
 def calls_storages_toplevel : List (String × List String) := [
@@ -92,7 +92,7 @@ def calls_storages_CSVStorage : List (String × List String) := [
   ("can_write", ["<raise IOError>", "IOError"]),
   ("__iter__", ["csv.reader", "self._handle.seek"]),
   ("__len__", ["csv.reader", "self._handle.seek", "sum"]),
-  ("append", ["<raise IOError>", "csv.writer", "csv_writer.writerow", "handle.fileno", "handle.flush", "handle.seek", "handle.truncate", "os.fsync"]),
+  ("append", ["<raise IOError>", "_.fileno", "_.flush", "_.seek", "_.truncate", "_.writerow", "csv.writer", "os.fsync"]),
   ("close", ["self._handle.close"]),
   ("read", ["super", "super().read"]),
   ("reset", ["self._write"]),
@@ -102,9 +102,9 @@ def calls_storages_CSVStorage : List (String × List String) := [
   ("_deserialize_storage_item", ["Point", "Point()._deserialize_from_list"]),
   ("_deserialize_timestamp", ["datetime.fromisoformat"]),
   ("_init_temp_storage", ["NamedTemporaryFile", "os.path.abspath", "os.path.dirname"]),
-  ("_serialize_point", ["kwargs.pop", "point._serialize_to_list"]),
+  ("_serialize_point", ["_._serialize_to_list", "_.pop"]),
   ("_swap_temp_with_primary", ["open", "os.fsync", "os.replace", "self._handle.close", "self._temp_handle.fileno", "self._temp_handle.flush"]),
-  ("_write", ["csv.writer", "handle.fileno", "handle.flush", "handle.seek", "handle.truncate", "os.fsync", "w.writerows"])]
+  ("_write", ["_.fileno", "_.flush", "_.seek", "_.truncate", "_.writerows", "csv.writer", "os.fsync"])]
 
 /-- storages.MemoryStorage: function ↦ what it calls, catches, raises -/
 def calls_storages_MemoryStorage : List (String × List String) := [
@@ -127,17 +127,17 @@ def calls_storages_MemoryStorage : List (String × List String) := [
 def calls_database_toplevel : List (String × List String) := [
   ("index_is_exact", ["index_is_exact", "isinstance"]),
   ("append_op", []),
-  ("append_op.op", ["method", "wraps"]),
+  ("append_op.op", ["_", "wraps"]),
   ("read_op", []),
-  ("read_op.op", ["method", "self.reindex", "wraps"]),
+  ("read_op.op", ["_", "self.reindex", "wraps"]),
   ("temp_storage_op", []),
-  ("temp_storage_op.op", ["<finally>", "method", "self._storage._cleanup_temp_storage", "self._storage._init_temp_storage", "wraps"]),
+  ("temp_storage_op.op", ["<finally>", "_", "self._storage._cleanup_temp_storage", "self._storage._init_temp_storage", "wraps"]),
   ("write_op", []),
-  ("write_op.op", ["method", "wraps"])]
+  ("write_op.op", ["_", "wraps"])]
 
 /-- database.TinyFlux: function ↦ what it calls, catches, raises -/
 def calls_database_TinyFlux : List (String × List String) := [
-  ("__init__", ["<raise TypeError>", "Index", "TypeError", "isinstance", "kwargs.pop", "self.reindex", "storage"]),
+  ("__init__", ["<raise TypeError>", "Index", "TypeError", "_", "_.pop", "isinstance", "self.reindex"]),
   ("storage", []),
   ("index", []),
   ("__enter__", []),
@@ -145,35 +145,35 @@ def calls_database_TinyFlux : List (String × List String) := [
   ("__iter__", ["<yield>", "self._storage._deserialize_storage_item"]),
   ("__len__", ["len"]),
   ("__repr__", ["', '.join", "len", "type"]),
-  ("all", ["points.sort", "self._storage.read"]),
+  ("all", ["_.sort", "self._storage.read"]),
   ("close", ["self._storage.close"]),
-  ("contains", ["MeasurementQuery", "index_is_exact", "len", "query", "self._index.search", "self._storage._deserialize_measurement", "self._storage._deserialize_storage_item"]),
-  ("count", ["MeasurementQuery", "index_is_exact", "len", "query", "self._index.search", "self._storage._deserialize_measurement", "self._storage._deserialize_storage_item"]),
+  ("contains", ["MeasurementQuery", "_", "index_is_exact", "len", "self._index.search", "self._storage._deserialize_measurement", "self._storage._deserialize_storage_item"]),
+  ("count", ["MeasurementQuery", "_", "index_is_exact", "len", "self._index.search", "self._storage._deserialize_measurement", "self._storage._deserialize_storage_item"]),
   ("drop_measurement", ["MeasurementQuery", "self._remove_helper"]),
-  ("get", ["<raise ValueError>", "MeasurementQuery", "enumerate", "got_point.time.replace", "index_is_exact", "len", "query", "self._index.search", "self._storage._deserialize_measurement", "self._storage._deserialize_storage_item"]),
-  ("get_field_keys", ["_point.fields.keys", "rst.add", "self._index.get_field_keys", "self._storage._deserialize_measurement", "self._storage._deserialize_storage_item", "set", "sorted"]),
-  ("get_field_values", ["_point.fields.items", "rst.append", "self._index.get_field_values", "self._storage._deserialize_measurement", "self._storage._deserialize_storage_item"]),
-  ("get_measurements", ["names.add", "self._index.get_measurements", "self._storage._deserialize_measurement", "set", "sorted"]),
-  ("get_tag_keys", ["_point.tags.keys", "rst.add", "self._index.get_tag_keys", "self._storage._deserialize_measurement", "self._storage._deserialize_storage_item", "set", "sorted"]),
-  ("get_tag_values", ["_point.tags.items", "rst.items", "rst[tk].union", "self._index.get_tag_values", "self._storage._deserialize_measurement", "self._storage._deserialize_storage_item", "set", "sorted"]),
-  ("get_timestamps", ["_time.replace", "datetime.fromtimestamp", "rst.append", "self._index.get_timestamps", "self._storage._deserialize_measurement", "self._storage._deserialize_timestamp"]),
+  ("get", ["<raise ValueError>", "MeasurementQuery", "_", "_.time.replace", "enumerate", "index_is_exact", "len", "self._index.search", "self._storage._deserialize_measurement", "self._storage._deserialize_storage_item"]),
+  ("get_field_keys", ["_.add", "_.fields.keys", "self._index.get_field_keys", "self._storage._deserialize_measurement", "self._storage._deserialize_storage_item", "set", "sorted"]),
+  ("get_field_values", ["_.append", "_.fields.items", "self._index.get_field_values", "self._storage._deserialize_measurement", "self._storage._deserialize_storage_item"]),
+  ("get_measurements", ["_.add", "self._index.get_measurements", "self._storage._deserialize_measurement", "set", "sorted"]),
+  ("get_tag_keys", ["_.add", "_.tags.keys", "self._index.get_tag_keys", "self._storage._deserialize_measurement", "self._storage._deserialize_storage_item", "set", "sorted"]),
+  ("get_tag_values", ["_.items", "_.tags.items", "_[tk].union", "self._index.get_tag_values", "self._storage._deserialize_measurement", "self._storage._deserialize_storage_item", "set", "sorted"]),
+  ("get_timestamps", ["_.append", "_.replace", "datetime.fromtimestamp", "self._index.get_timestamps", "self._storage._deserialize_measurement", "self._storage._deserialize_timestamp"]),
   ("insert", ["self._insert_helper"]),
   ("insert_multiple", ["self._insert_helper"]),
   ("measurement", ["Measurement"]),
   ("reindex", ["print", "self._index.build", "self._storage._deserialize_storage_item"]),
   ("remove", ["self._remove_helper"]),
   ("remove_all", ["self._reset_database"]),
-  ("search", ["<raise ValueError>", "MeasurementQuery", "ValueError", "enumerate", "found_points.append", "found_points.sort", "fp.time.replace", "index_is_exact", "isinstance", "len", "query", "self._index.search", "self._storage._deserialize_measurement", "self._storage._deserialize_storage_item"]),
-  ("select", ["<raise ValueError>", "MeasurementQuery", "ValueError", "enumerate", "hasattr", "index_is_exact", "isinstance", "key.startswith", "len", "list", "query", "result.append", "results.append", "self._index.search", "self._storage._deserialize_measurement", "self._storage._deserialize_storage_item", "tuple"]),
+  ("search", ["<raise ValueError>", "MeasurementQuery", "ValueError", "_", "_.append", "_.sort", "_.time.replace", "enumerate", "index_is_exact", "isinstance", "len", "self._index.search", "self._storage._deserialize_measurement", "self._storage._deserialize_storage_item"]),
+  ("select", ["<raise ValueError>", "MeasurementQuery", "ValueError", "_", "_.append", "_.startswith", "enumerate", "hasattr", "index_is_exact", "isinstance", "len", "list", "self._index.search", "self._storage._deserialize_measurement", "self._storage._deserialize_storage_item", "tuple"]),
   ("update", ["self._update_helper"]),
   ("update_all", ["TagQuery", "TagQuery().noop", "self._update_helper"]),
   ("_generate_updater", ["<raise ValueError>", "ValueError", "all", "callable", "isinstance", "validate_fields", "validate_tags"]),
-  ("_generate_updater.perform_update", ["<except ValueError>", "<raise ValueError>", "ValueError", "callable", "copy.deepcopy", "fields", "isinstance", "measurement", "point.fields.pop", "point.fields.update", "point.tags.pop", "point.tags.update", "point.time.astimezone", "tags", "time", "validate_fields", "validate_tags"]),
-  ("_insert_helper", ["<except Exception>", "<finally>", "<raise TypeError>", "<re-raise>", "TypeError", "datetime.now", "isinstance", "point.time.astimezone", "point.time.timestamp", "self._index.insert", "self._index.invalidate", "self._storage._serialize_point", "self._storage.append", "validate_fields", "validate_tags"]),
-  ("_remove_helper", ["MeasurementQuery", "enumerate", "index_is_exact", "len", "query", "removed_items.add", "self._index.invalidate", "self._index.remove", "self._index.search", "self._index.update", "self._reset_database", "self._storage._deserialize_measurement", "self._storage._deserialize_storage_item", "self._storage._swap_temp_with_primary", "self._storage.append", "set"]),
+  ("_generate_updater.perform_update", ["<except ValueError>", "<raise ValueError>", "ValueError", "_", "_.fields.pop", "_.fields.update", "_.tags.pop", "_.tags.update", "_.time.astimezone", "callable", "copy.deepcopy", "isinstance", "validate_fields", "validate_tags"]),
+  ("_insert_helper", ["<except Exception>", "<finally>", "<raise TypeError>", "<re-raise>", "TypeError", "_.time.astimezone", "_.time.timestamp", "datetime.now", "isinstance", "self._index.insert", "self._index.invalidate", "self._storage._serialize_point", "self._storage.append", "validate_fields", "validate_tags"]),
+  ("_remove_helper", ["MeasurementQuery", "_", "_.add", "enumerate", "index_is_exact", "len", "self._index.invalidate", "self._index.remove", "self._index.search", "self._index.update", "self._reset_database", "self._storage._deserialize_measurement", "self._storage._deserialize_storage_item", "self._storage._swap_temp_with_primary", "self._storage.append", "set"]),
   ("_reset_database", ["self._index._reset", "self._index.invalidate", "self._measurements.clear", "self._storage.reset"]),
-  ("_update_helper", ["<except Exception>", "<re-raise>", "MeasurementQuery", "enumerate", "index_is_exact", "len", "query", "reversed", "self._generate_updater", "self._index.build", "self._index.invalidate", "self._index.search", "self._storage._deserialize_measurement", "self._storage._deserialize_storage_item", "self._storage._serialize_point", "self._storage._swap_temp_with_primary", "self._storage.append", "update_and_record"]),
-  ("_update_helper.update_and_record", ["copy.deepcopy", "perform_update", "undo.append"])]
+  ("_update_helper", ["<except Exception>", "<re-raise>", "MeasurementQuery", "_", "enumerate", "index_is_exact", "len", "reversed", "self._generate_updater", "self._index.build", "self._index.invalidate", "self._index.search", "self._storage._deserialize_measurement", "self._storage._deserialize_storage_item", "self._storage._serialize_point", "self._storage._swap_temp_with_primary", "self._storage.append", "update_and_record"]),
+  ("_update_helper.update_and_record", ["_", "_.append", "copy.deepcopy"])]
 
 /-- measurement (module-level functions): function ↦ what it calls, catches, raises -/
 def calls_measurement_toplevel : List (String × List String) := [
@@ -188,7 +188,7 @@ def calls_measurement_Measurement : List (String × List String) := [
   ("__iter__", ["<yield>", "self._db._storage._deserialize_measurement", "self._db._storage._deserialize_storage_item"]),
   ("__len__", ["len", "self._db._storage._deserialize_measurement"]),
   ("__repr__", ["', '.join", "len", "type"]),
-  ("all", ["iter", "list", "points.sort"]),
+  ("all", ["_.sort", "iter", "list"]),
   ("contains", ["self._db.contains"]),
   ("count", ["self._db.count"]),
   ("get", ["self._db.get"]),
@@ -217,8 +217,8 @@ def calls_queries_CompoundQuery : List (String × List String) := [
   ("__hash__", ["hash"]),
   ("__repr__", ["repr"]),
   ("__eq__", ["bool", "isinstance"]),
-  ("__and__", ["CompoundQuery", "frozenset", "other.is_hashable", "self.is_hashable"]),
-  ("__or__", ["CompoundQuery", "frozenset", "other.is_hashable", "self.is_hashable"]),
+  ("__and__", ["CompoundQuery", "_.is_hashable", "frozenset", "self.is_hashable"]),
+  ("__or__", ["CompoundQuery", "_.is_hashable", "frozenset", "self.is_hashable"]),
   ("__invert__", ["CompoundQuery", "self.is_hashable"]),
   ("is_hashable", [])]
 
@@ -230,8 +230,8 @@ def calls_queries_SimpleQuery : List (String × List String) := [
   ("__hash__", ["hash"]),
   ("__repr__", []),
   ("__eq__", ["bool", "isinstance"]),
-  ("__and__", ["CompoundQuery", "frozenset", "other.is_hashable", "self.is_hashable"]),
-  ("__or__", ["CompoundQuery", "frozenset", "other.is_hashable", "self.is_hashable"]),
+  ("__and__", ["CompoundQuery", "_.is_hashable", "frozenset", "self.is_hashable"]),
+  ("__or__", ["CompoundQuery", "_.is_hashable", "frozenset", "self.is_hashable"]),
   ("__invert__", ["CompoundQuery", "self.is_hashable"]),
   ("is_hashable", [])]
 
@@ -242,9 +242,9 @@ def calls_queries_BaseQuery : List (String × List String) := [
   ("__hash__", ["hash"]),
   ("__getattr__", ["<raise RuntimeError>", "RuntimeError", "self.is_hashable", "type", "type(self)"]),
   ("__getitem__", ["self.__getattr__"]),
-  ("_generate_simple_query", ["<raise RuntimeError>", "<raise TypeError>", "RuntimeError", "SimpleQuery", "TypeError", "isinstance", "rhs.astimezone", "self.is_hashable"]),
-  ("_generate_simple_query.test", ["<except Exception>", "operator"]),
-  ("_generate_simple_query.path_resolver", ["<except Exception>", "<raise e>", "isinstance", "part"]),
+  ("_generate_simple_query", ["<raise RuntimeError>", "<raise TypeError>", "RuntimeError", "SimpleQuery", "TypeError", "_.astimezone", "isinstance", "self.is_hashable"]),
+  ("_generate_simple_query.test", ["<except Exception>", "_"]),
+  ("_generate_simple_query.path_resolver", ["<except Exception>", "<raise e>", "_", "isinstance"]),
   ("__eq__", ["self._generate_simple_query"]),
   ("__ne__", ["self._generate_simple_query"]),
   ("__lt__", ["self._generate_simple_query"]),
@@ -287,12 +287,12 @@ def calls_queries_TimeQuery : List (String × List String) := [
 
 /-- point (module-level functions): function ↦ what it calls, catches, raises -/
 def calls_point_toplevel : List (String × List String) := [
-  ("validate_tags", ["<raise ValueError>", "ValueError", "all", "isinstance", "tags.keys", "tags.values"]),
-  ("validate_fields", ["<raise ValueError>", "ValueError", "all", "fields.values", "isinstance"])]
+  ("validate_tags", ["<raise ValueError>", "ValueError", "_.keys", "_.values", "all", "isinstance"]),
+  ("validate_fields", ["<raise ValueError>", "ValueError", "_.values", "all", "isinstance"])]
 
 /-- point.Point: function ↦ what it calls, catches, raises -/
 def calls_point_Point : List (String × List String) := [
-  ("__init__", ["<raise TypeError>", "TypeError", "datetime.now", "kwargs.get", "self._validate_kwargs"]),
+  ("__init__", ["<raise TypeError>", "TypeError", "_.get", "datetime.now", "self._validate_kwargs"]),
   ("time", []),
   ("time.setter", ["<raise ValueError>", "ValueError", "isinstance"]),
   ("measurement", []),
@@ -303,13 +303,13 @@ def calls_point_Point : List (String × List String) := [
   ("fields.setter", ["validate_fields"]),
   ("__eq__", ["isinstance"]),
   ("__repr__", ["'; '.join", "self._fields.items", "self._tags.items", "self._time.isoformat", "str"]),
-  ("_deserialize_from_list", ["<except Exception>", "datetime.fromisoformat", "datetime.fromisoformat(row[0]).replace", "f_value.isdigit", "f_value[1:].isdigit", "float", "int", "len", "str"]),
+  ("_deserialize_from_list", ["<except Exception>", "_.isdigit", "_[1:].isdigit", "datetime.fromisoformat", "datetime.fromisoformat(row[0]).replace", "float", "int", "len", "str"]),
   ("_serialize_to_list", ["float", "self._fields.items", "self._tags.items", "self._time.replace", "self._time.replace(tzinfo=None).isoformat", "str"]),
-  ("_validate_kwargs", ["', '.join", "<raise TypeError>", "<raise ValueError>", "TypeError", "ValueError", "isinstance", "kwargs.keys", "list", "set", "sorted", "validate_fields", "validate_tags"])]
+  ("_validate_kwargs", ["', '.join", "<raise TypeError>", "<raise ValueError>", "TypeError", "ValueError", "_.keys", "isinstance", "list", "set", "sorted", "validate_fields", "validate_tags"])]
 
 /-- utils (module-level functions): function ↦ what it calls, catches, raises -/
 def calls_utils_toplevel : List (String × List String) := [
-  ("freeze", ["FrozenDict", "freeze", "frozenset", "isinstance", "obj.items", "tuple"]),
+  ("freeze", ["FrozenDict", "_.items", "freeze", "frozenset", "isinstance", "tuple"]),
   ("find_eq", ["bisect.bisect_left", "len"]),
   ("find_lt", ["bisect.bisect_left"]),
   ("find_le", ["bisect.bisect_right"]),
